@@ -15,6 +15,11 @@ CLAIMS = {
    text="Decides that every read of the pattern by the parser is dominated on every control-flow path by a length test proving the index in range (R-GUARD, all parser functions, inferred helper preconditions demanded at call sites), so no malformed pattern can make the parser index out of range; plus classification of every explicit panic site and fatal default (R-PANIC, R-FATAL) and nil-tests before use in the adapter (R-NILMATCH). Necessary for C10; it does NOT decide panics from index arithmetic outside the parser (class canonicaliser, finders, interpreter) nor termination.",
    note="Trusted: the abstract domain's transfer functions for the nine position primitives (their bodies are checked against the modelled effect); 11 sites outside the domain are frozen, individually argued exceptions listed in the rule source.",
    ref="DESIGN.md §4 C10"),
+ "C13": dict(
+   technique="static analysis: SSA value-flow (clamp dominance on phi edges, forward slice of the limit value, structural equality of copy offset and stack-pointer shift), who-may-write/read, error-result discipline, per-clause/per-emit-path push budget",
+   text="Decides the static ingredients of the stack-limit property on every path of the code: the backtracking stack is allocated only in two functions and every allocation length is provably clamped by the limit (R-LIM1); the limit value influences nothing but sizes, bounds, branch conditions and growTrack's bool, and growth keeps end-relative positions (R-LIM2); every capacity/jump error is propagated unchanged and the sentinel has one producer (R-LIM3); no clause pushes more than the reserve multiplier K and every emitFragment path pays for what it can push (R-LIM4). It does NOT prove the runtime invariant that the reserve suffices between two capacity checks, nor result equality with the limit disabled.",
+   note="Trusted: go/ssa construction; K is read from ensureStorage; loops in clauses are enumerated as 0/1 iterations.",
+   ref="DESIGN.md §4 C13"),
 }
 
 NOT_APPLICABLE = {
